@@ -170,6 +170,14 @@ def run(tier):
     res = vlib.run_harness("fv-total", ["cs", "dict", "--cases", r.out, "--out", os.path.join(wd, "dict.ndjson")], timeout=3000)
     ck.add_harness("replay:dict", res, traces=False)
     os.remove(r.out)
+    # CFF FDSelect (FdSelect.tla): every table of the family through FdSelect::font_index
+    r = vlib.run_tlc(wd, "FdSelectMC", cfg="FdSelectMC.cfg", workers=2, timeout=600, out_name="fdselect.out")
+    ck.add_tlc("tlc:FdSelect", r)
+    if not r.ok:
+        ck.spec_error("FdSelectMC", r)
+    res = vlib.run_harness("fv-total", ["cs", "fdselect", "--cases", r.out, "--out", os.path.join(wd, "fdselect.ndjson")], timeout=600)
+    ck.add_harness("replay:fdselect", res, traces=False)
+    os.remove(r.out)
     return ck.finish()
 
 
